@@ -623,8 +623,10 @@ func underMultiOr(f *F, l *F, under bool) bool {
 	return false
 }
 
-// diagnoseIndexError: a condition on a Blob field that the index evaluates with a value matcher
-// answers "unexpected type value" (the matchers are built from the string literal, the key holds bytes).
+// diagnoseIndexError explains an "unexpected type value" answer of the index path:
+//   - a null (or unset) Blob value in the index met a string / like matcher;
+//   - a condition on the JSON value itself (no path) other than _eq/_in is turned into a scalar
+//     matcher that is then handed the JSON leaves.
 func (r *runner) diagnoseIndexError(q Query, ra hx.Result, driving []*F) string {
 	if !strings.Contains(ra.Err(), "unexpected type value") {
 		return ""
@@ -633,14 +635,37 @@ func (r *runner) diagnoseIndexError(q Query, ra hx.Result, driving []*F) string 
 	if !ok {
 		return ""
 	}
-	inIndex := false
+	blobInIndex, jsonInIndex := false, false
 	for _, f := range r.c.Idx[i].Fields {
-		inIndex = inIndex || f.F == "bl"
+		blobInIndex = blobInIndex || f.F == "bl"
+		jsonInIndex = jsonInIndex || f.F == "j"
 	}
-	onBlob := false
-	walkLeaves(q.Filter, false, func(l *F, underNot bool) { onBlob = onBlob || (l.Field == "bl" && !underNot) })
-	if inIndex && onBlob {
+	nullDoc := func(field string) bool {
+		for _, d := range r.docs {
+			if !d.Deleted && d.Vals[field] == nil {
+				return true
+			}
+		}
+		return false
+	}
+	onField := func(field string) bool {
+		found := false
+		walkLeaves(q.Filter, false, func(l *F, underNot bool) { found = found || (l.Field == field && !underNot) })
+		return found
+	}
+	if blobInIndex && onField("bl") && nullDoc("bl") {
 		return sigBlobMatcher
+	}
+	if jsonInIndex && onField("j") {
+		rootCond := false
+		walkLeaves(q.Filter, false, func(l *F, underNot bool) {
+			if l.Field == "j" && !underNot && len(l.Path) == 0 && l.Arr == "" && l.Cmp != "_eq" && l.Cmp != "_in" {
+				rootCond = true
+			}
+		})
+		if rootCond {
+			return sigJSONRootScalarMatcher
+		}
 	}
 	return ""
 }
@@ -778,6 +803,24 @@ func (r *runner) explainMissing(q Query, missing []map[string]any, driving []*F)
 		return sigRelNe
 	}
 	chosen, hasChosen := r.chosenIndex(q)
+	// a JSON condition that "nothing there" satisfies on the scan path (h: {_eq: null}, _ne, _nin ...
+	// on a document without that path, or whose JSON value is null): the index looks under the
+	// path prefix, where such a document has no entry
+	if hasChosen && r.c.Idx[chosen].Fields[0].F == "j" && len(driving) > 0 && every(func(row map[string]any) bool {
+		if row["j"] == nil {
+			return true
+		}
+		for _, l := range driving {
+			if len(l.Path) > 0 {
+				if _, found := jsonAt(row["j"], l.Path); !found {
+					return true
+				}
+			}
+		}
+		return false
+	}) {
+		return sigJSONNullDocMissing
+	}
 	// _in with null on a unique index: the null is looked up as an exact key, but entries with a
 	// null field carry the docID in the key
 	if hasChosen && r.c.Idx[chosen].Unique {
@@ -883,7 +926,8 @@ func (r *runner) explainDuplicated(q Query, dup []map[string]any, driving []*F) 
 		return sigInDuplicates
 	}
 	// a composite index with an array field read without any condition (order only): one row per entry
-	if afs := r.compositeArrayFields(q); len(afs) > 0 && q.Filter == nil {
+	_, byFilter := r.chosenIndex(q)
+	if afs := r.compositeArrayFields(q); len(afs) > 0 && !byFilter {
 		all := true
 		for _, row := range dup {
 			some := false
